@@ -386,7 +386,10 @@ func c15Case(r *obs.Run, i int) {
 	// other ways to the same hits: the trapezoids of each search, saved by the caller, handed back later to AlignFrom (by
 	// then the aligner last saw the other strand's), or given to one dp.Aligner that is then used again while the caller
 	// still holds the first answer
-	route := []string{"Align", "Align", "AlignFrom", "dp.Aligner"}[rng.Intn(4)]
+	route := []string{"Align", "Align", "AlignFrom", "dp.Aligner", "Share"}[rng.Intn(5)]
+	if route == "Share" && pl.Self {
+		route = "Align"
+	}
 	w["route_to_the_hits"] = route
 	switch route {
 	case "AlignFrom":
@@ -398,6 +401,36 @@ func c15Case(r *obs.Run, i int) {
 			}
 		}
 		r.Count("runs_through_alignfrom", 1)
+	case "Share":
+		// a second aligner for the same target that takes index and settings over from the first (as the pals command
+		// does for every further query); the first one meanwhile works on another query
+		oq := linear.NewSeq("other", alphabet.BytesToLetters(c14Rand(rng, pl.QLen)), alphabet.DNA)
+		m2, err := morass.New(filter.Hit{}, "c15b", scratch, 1<<14, false)
+		if err != nil {
+			r.Inconclusive("morass.New: " + err.Error())
+			return
+		}
+		pb := pals.New(ts, qs, false, m2, 0, &mem, nil)
+		defer pb.CleanUp()
+		pb.Share(pa)
+		po := pals.New(ts, oq, false, m, 0, &mem, nil)
+		po.Share(pa)
+		for _, step := range []int{0, 2, 1, 3} {
+			switch step {
+			case 0, 1:
+				hits[step], err = pb.Align(step == 1)
+				if err != nil {
+					fail("pals-error", fmt.Sprintf("Align(complement=%v) of an aligner set up with Share: %v", step == 1, err))
+					return
+				}
+			default:
+				if _, err := po.Align(step == 3); err != nil {
+					fail("pals-error", fmt.Sprintf("Align of a second sharing aligner: %v", err))
+					return
+				}
+			}
+		}
+		r.Count("runs_through_share", 1)
 	case "dp.Aligner":
 		al := dp.NewAligner(ts, qs, pa.FilterParams.WordSize, pa.DPParams.MinHitLength, pa.DPParams.MinId)
 		al.Costs = &pa.Costs
